@@ -149,6 +149,10 @@ def cut_loop(it, node, env, spec, iterable):
                 iterable = VSeqIter(seq)
             iname = spec.get('index', '_i')
             env.set(iname, 0)
+            if spec.get('iter'):
+                # ghost name for the sequence being iterated (e.g. the result of sorted(...)), usable in invariants
+                env.set(spec['iter'], iterable if isinstance(iterable, VSeqIter) else
+                        VSeqIter(seq, elem=getattr(iterable, 'elem', 'any')))
         elif isinstance(iterable, (VKeys, VDict)):
             mode = 'keys'
             arr = iterable.arr
@@ -163,6 +167,16 @@ def cut_loop(it, node, env, spec, iterable):
             env.set(dname, VSet(arr=pv.EMPTY_SET))
         else:
             raise Unsupported('for loop over %r' % (iterable,))
+
+    # ---- a contract that names the iterated sequence / asks for a specified order: the loop must not iterate a set
+    # (set iteration order depends on the interpreter's hash seed, C12)
+    if is_for and (spec.get('iter') or spec.get('ordered')):
+        ctx.oblige('%s.visits_its_elements_in_a_specified_order' % tag, mode != 'set', node.lineno, 'order',
+                   info={'clause': 'the loop iterates a sequence (list, tuple, sorted(...)), not a set: the order in '
+                                   'which a set yields its elements depends on the hash seed',
+                         'iterates': 'a set' if mode == 'set' else 'a sequence'})
+        if mode == 'set':
+            raise PathEnd()
 
     # ---- named snapshots of the entry state (ghost locals usable by inner loops as well)
     for sname, sexpr in spec.get('snap', {}).items():
